@@ -27,6 +27,115 @@ CHECKS = {
        "rendering of values is delegated to the encoder (C12).",
   ref="DESIGN.md §5 C15, docs/C15.md", tech=TECH),
 }
+
+CHECKS.update({
+ "C07": dict(
+  text=("Coq model of the Next loop as an ABSTRACT machine (any state type, any step function) with the context as an oracle "
+        "sequence polled before every instruction; 7 theorems at full strength, for every step function, hence however the query "
+        "loops: the context error is returned at exactly the first true poll with no further instruction executed "
+        "(cancel_prompt, one_poll_per_instruction), the cancelled history is a prefix of the uncancelled one then ctx error then "
+        "(nil,false) forever (cancel_history/prefix/terminal), exhaustion is absorbing, an emitted error can be followed by "
+        "further Next calls. Tie to the code: for ~290 programs (finite and infinite) EVERY cancellation point k=0..N is run with a "
+        "counting context and the extracted model, instantiated with the implementation's own uncancelled trace, must predict the "
+        "cancelled run exactly (values, poll counts, 3 extra Next calls); a second harness built with the gojq_debug tag checks "
+        "instruction fetches == polls; no-panic/hang/no-poll oracles on the implementation."),
+  note=TRUST + "The step function is abstract: the theorems do not depend on instruction semantics; what ties the loop structure "
+       "to execute.go is the per-poll correspondence. One-shot iterators for wrong variable counts are not modelled.",
+  ref="DESIGN.md §5 C07, docs/C07.md", tech=TECH),
+ "C11": dict(
+  text=("Coq model of Compare (type ranks, int/float mixing through float64 conversion modelled with Flocq binary64, NaN via lt, "
+        "bytewise strings, lexicographic arrays, objects by key list then values) and of sort/group_by/unique/min_by/max_by/"
+        "bsearch/array subtraction/indices/keys as the code computes them. 12 theorems (34 named statements), none partial, on the "
+        "full domain of the property (NaN-free, floats |x|<2^53, integers of any size): Compare equals Rcompare on exact reals; "
+        "total preorder (reflexive, antisymmetric up to denotation, transitive, antisymmetry of swap); == != < <= > >= are its "
+        "projections; sort is an ordered stable permutation and any stable sort gives the same output; unique, group_by (maximal "
+        "runs), first-minimum/last-maximum, bsearch index or -1-insertion point, subtraction, indices, key order; the order as the "
+        "property words it (exact rationals, code points) equals what Compare computes. Correspondence: gojq.Compare and the six "
+        "operators on ALL ordered pairs of a 218-value universe in all Go representations, builtins on random arrays with ties, "
+        "judged by the extracted model and by the exact-rational spec; transitivity over ~1.2M triples on the implementation."),
+  note=TRUST + "Axioms shown by Print Assumptions (Coq Reals through Flocq B2R): ClassicalDedekindReals.sig_not_dec, sig_forall_dec, "
+       "FunctionalExtensionality.functional_extensionality_dep, Classical_Prop.classic. sort.SliceStable is assumed to be a stable "
+       "sort (theorem: every stable ordered arrangement equals the model's output). cli/encoder.go key order is exercised by C12.",
+  ref="DESIGN.md §5 C11, docs/C11.md", tech=TECH),
+ "C13": dict(
+  text=("Coq models over byte strings of Go's UTF-8 decoding/encoding, explode/implode, strings.Split/join, @base64/@base64d "
+        "(padding cut + raw decoding, sextet arithmetic), @uri/@urid, value-level getpath/setpath, and hand transcriptions of "
+        "builtin.jq's to_entries/from_entries/with_entries/tostream/fromstream; Go 1.24 time.go civil-date arithmetic for "
+        "gmtime/mktime. 16 theorems, all closed: each inverse pair returns its input on its whole domain (every byte string for the "
+        "codecs, every valid UTF-8 string for explode|implode, every value for the entry/stream pairs, every whole second of years "
+        "1..9999 for gmtime|mktime), setpath/getpath laws, tostream leaf events satisfy getpath(p)=leaf and replay rebuilds the "
+        "value. Correspondence: every law is evaluated through the public API on a value universe + random nested values "
+        "(implementation-level oracle) and every codec function separately against the extracted model. tojson|fromjson, "
+        "tostring|tonumber, todate|fromdate and [paths]==[path(..)] are decided at the implementation-oracle level only."),
+  note=TRUST + "Closed under the global context (no axioms). jq-defined pairs are proved over Gallina transcriptions of the "
+       "builtin.jq text, tied by correspondence. timefmt-go (strftime/strptime) is outside /repo. Known finding: todate|fromdate at "
+       "-62135596800 (KNOWN_FINDINGS.txt).",
+  ref="DESIGN.md §5 C13, docs/C13.md", tech=TECH),
+ "C14": dict(
+  text=("Coq model of code-point positions: length, .[i:j], .[i], index/rindex/indices on strings and the byte-offset to "
+        "code-point conversion used by match, with the regexp engine as a Section variable under hypotheses re_aligned/re_ordered. "
+        "12 theorems, all closed: every position-based operation on a byte string agrees with the same operation on explode s "
+        "(ill-formed bytes count one position each); for every reported (offset,length,string) of a match and of each capture, "
+        "slicing the subject by code points returns the string; splits pieces interleaved with matches rebuild the subject and "
+        "gsub with the whole-match group substituted back is the identity (over transcriptions of the builtin.jq bodies). "
+        "Correspondence: subjects over an alphabet of 1-4 byte characters, combining marks and newlines (exhaustive to short "
+        "lengths, random longer) x a regex grammar x flags; the harness calls Go's regexp with gojq's flag translation to obtain "
+        "the oracle indices and checks the hypotheses on them; test/capture/scan/split/termination by implementation oracles under a timeout."),
+  note=TRUST + "Closed under the global context. Go's regexp is outside /repo: assumed to return ordered, in-range, rune-aligned "
+       "indices on valid UTF-8 (checked on every sampled call).",
+  ref="DESIGN.md §5 C14, docs/C14.md", tech=TECH),
+ "C16": dict(
+  text=("Coq transcription of cli/stream.go's jsonStream state machine over JSON token sequences, of the input iterators "
+        "(json/raw/slurp/files/null) as functions over lists, of input/inputs consumption and of the named/positional argument "
+        "construction. 20 theorems, none partial, all closed: --stream events equal the declarative tostream in document order for "
+        "every document; builtin.jq's fromstream applied to them rebuilds the documents; for every token prefix the events are a "
+        "prefix of the full run followed by one error; successive input calls return the file-by-file concatenation exactly once "
+        "then an error; -s . equals -n [inputs]; raw lines law; -Rs; first binding of a name wins; --args/--jsonargs positional "
+        "switching. Correspondence: random multi-document streams split over files and stdin, truncated at EVERY byte for "
+        "--stream, 17 flag/query combinations, judged by the extracted model and by in-language equivalents on the same binary."),
+  note=TRUST + "encoding/json's tokenizer is outside /repo (its token sequence is the model's input). Flag recognition itself is C08's.",
+  ref="DESIGN.md §5 C16, docs/C16.md", tech=TECH),
+ "C18": dict(
+  text=("Coq model of module path resolution over an abstract file system (candidate list name.jq, name/base.jq per search "
+        "directory, relative search metadata against the importing file's directory, ~/.jq file vs directory) and of the "
+        "compile-time function/variable table surgery of compileImport/compileModule, with a lexical specification resolver. "
+        "14 theorems: resolution_order (first existing candidate, None iff none) for every file system and path list, search "
+        "rewriting, init modules, modulemeta defs; static visibility PARTIAL: proved that whenever the specification binds a call "
+        "the table surgery binds it identically (all module trees, mutual induction); the full statement is kept as a Definition "
+        "and REFUTED by a theorem with a concrete leak (importer's names visible inside a later-imported module) - recorded as "
+        "known findings. Correspondence: random module trees (depth<=3, diamonds, clashes, arities, data modules) under random "
+        "search-path layouts in a temp dir; marker functions reveal which file/definition was bound; inlined-text oracle."),
+  note=TRUST + "Closed under the global context. Lexical model of filepath.Clean/Join/Base/Dir validated against Go by the "
+       "correspondence. Two known findings (scope leak into imported modules; data import of an included module not exposed).",
+  ref="DESIGN.md §5 C18, docs/C18.md", tech=TECH),
+ "C19": dict(
+  text=("Translator (go/ast) regenerates the list of every reference to os/time.Now/time.Local/filepath/file I/O in package gojq; "
+        "Coq holds the reviewed allow-list and proves (finite vm_compute check, stated as such) that every reference is on it. "
+        "Coq models of the option decision table (no options: env/$ENV empty, input errors, imports error), of WithVariables "
+        "binding order and count check, of WithInputIter consumption, and of the arity-mask arithmetic of WithFunction. "
+        "18 theorems, all closed: no_ambient and independence from the world record, env_is_loader, vars_bind_in_order (+too "
+        "few/many), input_in_order, arity_mask for ALL registration sequences with 0<=min<=max<=30 (accepted iff some registration "
+        "covers n; the last covering registration runs), no wrap. Correspondence: programs over all builtins under differing "
+        "environments/cwd/HOME/TZ/stdin; custom functions of arity ranges incl. overlaps vs equivalent jq defs across calling "
+        "contexts (paths, try, backtracking, argument order)."),
+  note=TRUST + "Closed under the global context. Interchangeability of a native with a jq def is a VM-level statement decided by "
+       "the correspondence only; one known finding (native arguments evaluated in path-tracking mode).",
+  ref="DESIGN.md §5 C19, docs/C19.md", tech=TECH),
+ "C20": dict(
+  text=("Coq transcription of stack.go/scope_stack.go (array with index/limit and next links) and of the scope-frame logic of "
+        "opcallrec/opscope/opret. 9 theorems (named _partial; C20_full stays visible): Stack_refines (the array stack refines a "
+        "persistent list stack for every LIFO-disciplined push/pop/save/restore sequence and every pending saved view is "
+        "unchanged), stack_len_bound and push_after_pop_reuses (the data array does not grow when slots above the limit are "
+        "reused), tailcall_frame_reuse (a tail call with no pending fork above the frame leaves scope index and offset "
+        "unchanged), tailcall_under_fork_grows, generic loop_bound and its instance. Observer on the implementation: peak "
+        "footprint (forks, stack/scopes/paths data, values) sampled at every instruction at n and 8n for 75 fixed iteration/"
+        "tail-recursion forms plus generated ones must not grow; random LIFO op sequences on the real stacks vs the extracted model."),
+  note=TRUST + "Closed under the global context. PARTIAL: the bound for every compiled program is not a theorem (it needs a VM "
+       "model instantiated on real code); retained heap after GC is a runtime notion outside the model. Tail position is read as "
+       "'no pending choice point of the same activation'. Two known findings (mutual tail recursion through nested definitions).",
+  ref="DESIGN.md §5 C20, docs/C20.md", tech=TECH),
+})
+
 ORDER = ["C%02d" % i for i in range(1, 21)]
 NOT_APPLICABLE = {}
 PENDING_REASON = "check under construction in this development (builder not finished); not claimed yet"
